@@ -347,4 +347,8 @@ MUTANTS = [
       more=[{"file": BMF, "old": "        # Row tracking ---", "new": "        cmd_col = Signal(settings.geom.colbits)\n        self.comb += cmd_col.eq(slicer.col(cmd_buffer.source.addr))\n        # Row tracking ---"}]),
     B("c06.1-twin-wide-col-wire", "C06", BMF, "cmd.a.eq((auto_precharge << 10) | slicer.col(cmd_buffer.source.addr))", "cmd.a.eq((auto_precharge << 10) | cmd_col)",
       more=[{"file": BMF, "old": "        # Row tracking ---", "new": "        cmd_col = Signal(settings.geom.colbits + 1)\n        self.comb += cmd_col.eq(slicer.col(cmd_buffer.source.addr))\n        # Row tracking ---"}]),
+    # a register stage behind the command crossing: fine when clocked by the controller side, a clock-domain bug when clocked by the user side
+    B("c08.1-twin-buffer-after-cdc", "C08", ADF, "        self.submodules += stream.Pipeline(port_from.cmd, cmd_cdc, port_to.cmd)", "        cmd_buf = ClockDomainsRenamer(port_to.clock_domain)(stream.Buffer([(\"we\", 1), (\"addr\", address_width)]))\n        self.submodules += cmd_buf\n        self.submodules += stream.Pipeline(port_from.cmd, cmd_cdc, cmd_buf, port_to.cmd)"),
+    M("c08.1-buffer-wrong-domain", "C08", "C08.1", ADF, "        self.submodules += stream.Pipeline(port_from.cmd, cmd_cdc, port_to.cmd)", "        cmd_buf = ClockDomainsRenamer(port_from.clock_domain)(stream.Buffer([(\"we\", 1), (\"addr\", address_width)]))\n        self.submodules += cmd_buf\n        self.submodules += stream.Pipeline(port_from.cmd, cmd_cdc, cmd_buf, port_to.cmd)"),
+    M("c08.6-depth-halved", "C08", "C08.6", ADF, "            depth   = cmd_depth,", "            depth   = max(2, cmd_depth//2),"),
 ]
